@@ -1078,6 +1078,23 @@ def _m_sqrt_etc(name):
 # --------------------------------------------------------------------------- membership / quantifier models
 
 
+class ObjArr(np.ndarray):
+    """Fixed-shape numpy array of dtype=object holding proxies (numpy does all the shape plumbing).  The only difference to a plain
+    object array: ``astype(float)`` keeps the (symbolic real) entries instead of calling float() on them."""
+
+    def astype(self, dtype, *a, **k):
+        if _norm_dtype(dtype) in (float, np.float64, "float"):
+            return self.copy()
+        return super().astype(dtype, *a, **k)
+
+    @staticmethod
+    def of(seq):
+        a = np.empty(len(seq), dtype=object)
+        for q, x in enumerate(seq):
+            a[q] = x
+        return a.view(ObjArr)
+
+
 class Opaque:
     """result of a numpy call whose value is irrelevant to the contract (kept out of every obligation)"""
 
